@@ -13,6 +13,8 @@ package cookies
 // ------------------------------------------------------------------ C18 / C09: the single cookie constructor
 //@ func MakeCookieFromOptions
 //@ safety
+//@ nomod
+//@ fresh
 //@ prop C18 C09
 //@ requires[config:samesite-validated] opts.SameSite == "" || opts.SameSite == "lax" || opts.SameSite == "strict" || opts.SameSite == "none"
 //@ ensures[attributes] result != nil && result.Name == name && result.Value == value && result.Path == opts.Path
